@@ -210,17 +210,48 @@ def nondet(check):
                         bad.append("%s:%d %s" % (mod.relpath, n.lineno, txt))
             if isinstance(n, ast.Call) and isinstance(n.func, ast.Name) and n.func.id == "myclock":
                 clock_uses.append((mod, n))
-    # myclock() may only flow into `start` / self._cputime
+    # taint analysis: values derived from the clock may only flow into other clock-tainted
+    # locals and into self._cputime
     integ = proj.module("integration")
-    for n in ast.walk(integ.tree):
-        if isinstance(n, ast.Assign):
-            has_clock = any(isinstance(x, ast.Call) and isinstance(x.func, ast.Name) and x.func.id == "myclock" for x in ast.walk(n.value))
-            uses_start = any(isinstance(x, ast.Name) and x.id == "start" for x in ast.walk(n.value))
-            if has_clock or uses_start:
-                for t in n.targets:
-                    tn = unparse(t)
-                    if tn not in ("start", "self._cputime"):
-                        bad.append("%s:%d clock value flows into %s" % (integ.relpath, n.lineno, tn))
+    for fn in proj.all_functions():
+        if fn.module is not integ:
+            continue
+        tainted = set()
+        changed = True
+        while changed:
+            changed = False
+            for n in ast.walk(fn.node):
+                if isinstance(n, ast.Assign):
+                    src = any((isinstance(x, ast.Call) and isinstance(x.func, ast.Name) and x.func.id == "myclock") or (isinstance(x, ast.Name) and x.id in tainted) for x in ast.walk(n.value))
+                    if src:
+                        for t in n.targets:
+                            if isinstance(t, ast.Name) and t.id not in tainted:
+                                tainted.add(t.id)
+                                changed = True
+        if not tainted and not any(isinstance(x, ast.Call) and isinstance(x.func, ast.Name) and x.func.id == "myclock" for x in ast.walk(fn.node)):
+            continue
+        for n in ast.walk(fn.node):
+            if isinstance(n, ast.Assign):
+                src = any((isinstance(x, ast.Call) and isinstance(x.func, ast.Name) and x.func.id == "myclock") or (isinstance(x, ast.Name) and x.id in tainted) for x in ast.walk(n.value))
+                if src:
+                    for t in n.targets:
+                        if not (isinstance(t, ast.Name) or (isinstance(t, ast.Attribute) and t.attr == "_cputime")):
+                            bad.append("%s:%d clock value flows into %s" % (integ.relpath, n.lineno, unparse(t)))
+            elif isinstance(n, (ast.Call, ast.Compare, ast.If, ast.While, ast.Return, ast.AugAssign)):
+                parts = []
+                if isinstance(n, ast.Call) and not (isinstance(n.func, ast.Name) and n.func.id in ("print", "myclock")):
+                    parts = n.args + [k.value for k in n.keywords]
+                elif isinstance(n, ast.Compare):
+                    parts = [n.left] + n.comparators
+                elif isinstance(n, (ast.If, ast.While)):
+                    parts = [n.test]
+                elif isinstance(n, ast.Return) and n.value is not None:
+                    parts = [n.value]
+                elif isinstance(n, ast.AugAssign):
+                    parts = [n.value]
+                for prt in parts:
+                    if any(isinstance(x, ast.Name) and x.id in tainted for x in ast.walk(prt)):
+                        bad.append("%s:%d clock-derived value used in %s" % (integ.relpath, n.lineno, type(n).__name__))
     if bad:
         check.violation("EFF-NONDET", "flowdyn", "non-deterministic source on the numeric path: %s" % "; ".join(bad[:3]), key="nondet")
     else:
